@@ -14,6 +14,6 @@ echo "== demo with change:"; (eval "$DEMO") >/tmp/seed_demo_mut_$NAME.txt 2>&1; 
 mkdir -p /verif/seeded/$NAME && cp out/* /verif/seeded/$NAME/
 cd /verif
 echo "{\"confirmed\": \"demo passes on clean tree, fails with patch (run in scratch worktree $W)\", \"checks\": {" > /verif/seeded/$NAME/verif_result.json
-for c in "$@"; do VERIF_REPO=$W VERIF_RUN_TAG=seed ./check $c > /tmp/seed_check_${NAME}_$c.txt 2>&1; rc=$?; echo "\"$c\": {\"quick_rc\": $rc, \"clauses\": \"$(grep -o 'violated clause [A-Za-z_]*' /tmp/seed_check_${NAME}_$c.txt | sort | uniq -c | tr '\n' ';' | tr -s ' ')\"}," >> /verif/seeded/$NAME/verif_result.json; grep -E "VIOLATION|violated clause|INCONCLUSIVE|validated" /tmp/seed_check_${NAME}_$c.txt | cut -c1-300 | head -4; echo "$NAME $c rc=$rc"; done
+for c in "$@"; do VERIF_REPO=$W VERIF_RUN_TAG=seed2 ./check $c > /tmp/seed_check_${NAME}_$c.txt 2>&1; rc=$?; echo "\"$c\": {\"quick_rc\": $rc, \"clauses\": \"$(grep -o 'violated clause [A-Za-z_]*' /tmp/seed_check_${NAME}_$c.txt | sort | uniq -c | tr '\n' ';' | tr -s ' ')\"}," >> /verif/seeded/$NAME/verif_result.json; grep -E "VIOLATION|violated clause|INCONCLUSIVE|validated" /tmp/seed_check_${NAME}_$c.txt | cut -c1-300 | head -4; echo "$NAME $c rc=$rc"; done
 echo "\"_\": {}}}" >> /verif/seeded/$NAME/verif_result.json
 git -C $W checkout -q -- .
